@@ -62,10 +62,33 @@ class NdArray:
         return self.data
 
 
+USER_SIDE = '''
+from ufl.coefficient import Coefficient
+from ufl.constant import Constant
+
+
+class Function(Coefficient):
+    """a problem-solving-environment function type (dolfinx / firedrake style): a Coefficient with data"""
+
+    def __init__(self, V, data=None, count=None):
+        super().__init__(V, count=count)
+        self.data = data
+
+
+class OtherFunction(Coefficient):
+    """another user-side function type"""
+
+
+class UserConstant(Constant):
+    """a user-side constant type"""
+'''
+
+
 class FormWorld:
     def __init__(self, ctx, set_order="fifo", hash_salt=0, gdim=2):
         self.ctx = ctx
         self.prog = prog = ctx.prog
+        prog.add_virtual_module("userside", USER_SIDE)
         self.ip = ip = Interp(prog)
         ip.instantiable = {"*"}
         ip.honor_new = True
@@ -99,6 +122,7 @@ class FormWorld:
         ip.on_instantiate = self._on_instantiate
         self.gdim = gdim
         self._cells = {}
+        self._elements = {}
         self._n_objects = 0
 
     # ------------------------------------------------------------------ stdlib / builtins
@@ -241,24 +265,26 @@ class FormWorld:
         return self._cells[name]
 
     def element(self, family="P", degree=1, shape=(), cell=None, ref_shape=None):
-        """abstract user-side finite element: identity is its repr (as for the test-suite elements)"""
+        """user-side finite element: an instance of AbstractFiniteElement whose abstract members are
+        supplied here; identity is its repr (as for the elements of the test suite)"""
         cell = cell or self.cell()
         name = f"{family}{degree}{list(shape) if shape else ''}@{cell.attrs['cellname']}"
+        if name in self._elements:
+            return self._elements[name]
+        k = self.prog.get_class("ufl.finiteelement.AbstractFiniteElement")
         e = Obj("element", reference_value_shape=tuple(ref_shape if ref_shape is not None else shape), cell=cell, embedded_superdegree=degree, embedded_subdegree=degree, num_sub_elements=0, sub_elements=[])
-        e.attrs["__class__"] = None
+        e.attrs["__class__"] = k
         e.attrs["__repr__"] = f"Element({name})"
         e.attrs["__str__"] = f"<{name}>"
         e.attrs["__hash__"] = lambda: self.py_hash(f"Element({name})")
-        e.attrs["__eq_key__"] = name
-        e.attrs["_ufl_signature_data_"] = lambda: f"Element({name})"
-        e.attrs["_is_linear"] = lambda: degree <= 1
+        e.attrs["__eq__"] = lambda other: isinstance(other, Obj) and other.attrs.get("__repr__") == f"Element({name})"
         pb = Obj("pullback", physical_value_shape=lambda el, dom: tuple(shape))
         pb.attrs["__class__"] = None
         e.attrs["pullback"] = pb
         sob = Obj("sobolev")
         sob.attrs["__class__"] = None
         e.attrs["sobolev_space"] = sob
-        e.attrs["__contains_in__"] = True
+        self._elements[name] = e
         return self._serial(e)
 
     def mesh(self, ufl_id, degree=1, cellname="triangle", gdim=None):
@@ -268,11 +294,11 @@ class FormWorld:
     def space(self, mesh, element):
         return self.new("ufl.functionspace.FunctionSpace", mesh, element)
 
-    def coefficient(self, V, count):
-        return self.new("ufl.coefficient.Coefficient", V, count=count)
+    def coefficient(self, V, count, cls="ufl.coefficient.Coefficient"):
+        return self.new(cls, V, count=count)
 
-    def constant(self, mesh, count, shape=()):
-        return self.new("ufl.constant.Constant", mesh, shape, count=count)
+    def constant(self, mesh, count, shape=(), cls="ufl.constant.Constant"):
+        return self.new(cls, mesh, shape, count=count)
 
     def argument(self, V, number, part=None):
         return self.new("ufl.argument.Argument", V, number, part)
